@@ -54,7 +54,7 @@ def make_policy(sk, mode, seed):
         if not acts:
             table[s] = {}
             continue
-        if mode == 'full':
+        if mode in ('full', 'full-tab'):
             sup = acts
         elif mode == 'first':
             sup = acts[:1]
@@ -64,6 +64,13 @@ def make_policy(sk, mode, seed):
         d = {a: 0.0 for a in acts}
         d.update(dict(zip(sup, ps)))
         table[s] = d
+    if mode.endswith('-tab'):
+        # the same policy as a TABLE: action_dist(s) is a row view of a probability table (its own distribution class), reversed action order
+        import msdm.core.mdp.tabularpolicy as tpm
+        al = list(reversed(sk.action_list))
+        data = [[table[s].get(a, 0.0) if table[s] else (1.0 if a == al[0] else 0.0) for a in al] for s in sk.states]
+        arr = sym_array(data) if S.symbolic() else np.array(data, dtype=float)
+        return tpm.TabularPolicy.from_state_action_lists(state_list=tuple(sk.states), action_list=tuple(al), data=arr), table
     return pol.FunctionalPolicy(lambda s: DictDistribution(table[s])), table
 
 
@@ -314,10 +321,10 @@ def tasks(tier, seed):
     caps = [0, 1, 2, 3] + ([4] if tier == 'thorough' else [])
     fam = M.family_basic(tier, seed)
     for sk in fam:
-        for pm in ('full', 'first', 'rand'):
+        for pm in ('full', 'first', 'rand', 'full-tab'):
             for im in (['sampled', 0, 1] if len(sk.states) > 1 else ['sampled', 0]):
                 for cap in caps:
-                    if tier == 'quick' and pm == 'rand' and cap not in (0, 3):
+                    if tier == 'quick' and pm in ('rand', 'full-tab') and cap not in (0, 3):
                         continue
                     T.append(Task('run_on/%s/%s/init-%s/cap%d' % (sk.name, pm, im, cap), h_run_on, (sk, pm, im, cap, seed), tier='B', max_paths=4000))
         for nsim in (1, 2):
